@@ -50,6 +50,7 @@ impl<Producer: MatchProducer> Matches<Producer> {
 impl<Producer: MatchProducer> Iterator for Matches<Producer> {
     type Item = Match;
     fn next(&mut self) -> Option<Self::Item> {
+        sim_step!(ITER_NEXT, 0);
         let pos = self.position?;
         self.mp.next_match(pos, &mut self.position)
     }
